@@ -53,6 +53,7 @@ class Group:
         self.extra_items = []  # (file, text) appended at top level of file
         self.kani_norm = {}
         self.separate = False
+        self.helper = False
         self.strip_tracing = []  # files in which tracing attributes / macro statements are removed (K1)
         self.harnesses = []
         self._parse()
@@ -67,6 +68,8 @@ class Group:
             s = ln.strip()
             if s.startswith("//@ target:"):
                 self.target = s.split(":", 1)[1].strip()
+            elif s.startswith("//@ helper"):
+                self.helper = True     # no harnesses of its own: code other groups of the same property use; always spliced
             elif s.startswith("//@ separate"):
                 self.separate = True   # spliced and run in its own scratch copy (its stubs / contracts would clash with another group's)
             elif s.startswith("//@ strip-tracing "):
@@ -301,7 +304,7 @@ def run_kani(prop, group_names, tier, timeout=1500, jobs=16, only=None, keep_scr
             selected.append(h)
     if not selected:
         return [], {"cmd": "", "wall": 0.0, "scratch": None}
-    used_groups = [g for g in groups if any(h.group is g for h in selected)]
+    used_groups = [g for g in groups if g.helper or any(h.group is g for h in selected)]
     if harness_timeout is None:
         harness_timeout = int(os.environ.get("VERIF_HARNESS_TIMEOUT", "150" if tier == "quick" else "600"))
     # groups marked `//@ separate` get their own scratch copy and cargo-kani invocation
